@@ -119,7 +119,19 @@ def applyTx (s : Sh) (tok : List String) : Option Sh :=
       let new := h.next
       let h := step (create h) (.overwrite outer old new)
       some { s with heap := insertChild h root outer }
-  | _ => none
+  | some k =>
+    -- Optional elements / fields holding immutable values (strings, integers) and the Int-array values of
+    -- `sd`: immutable values are not containers of the protocol model (whether atree keeps one inline or
+    -- in a storable slab of its own is atree's bookkeeping, like the inlining of `data`), so the pointer
+    -- structure is unchanged; the model predicts which transactions commit (the resources exist; absent
+    -- elements / keys / paths are tolerated by the transaction text) and the health oracle judges the rest.
+    if ["addopt", "addbig", "copyopt", "copybig", "optone", "oneopt", "optod", "odopt", "optpath", "pathopt",
+        "setsd", "rmsd", "clrsd", "readall"].contains k then
+      (lookupP s.rpaths (n 1, n 2)).map fun _ => s
+    else if k == "optto" then
+      (lookupP s.rpaths (n 1, n 2)).bind fun _ => (lookupP s.rpaths (n 4, n 5)).map fun _ => s
+    else none
+  | none => none
 
 def judge (op : List String) (go : String) : Verdict :=
   match op with
